@@ -200,6 +200,10 @@ func smallData(c *Corpus, r *rng, pi int, lim int) int {
 const baseInstant = 975369600 // 2000-11-28T00:00:00Z
 
 func pickInstant(r *rng) int64 {
+	if r.chance(6) {
+		// boundary values of the clock: the Unix epoch and Go's zero time
+		return []int64{0, -62135596800, 1, -1}[r.intn(4)]
+	}
 	// a small set of distinct instants, including ones before the base (clock going backwards)
 	return baseInstant + int64(r.intn(6)-2)*86400*31 + int64(r.intn(3))*3661
 }
@@ -264,7 +268,7 @@ func genC10(c *Corpus, pl pools, seed uint64, tier string) *RunSpec {
 		privateP := 0
 		for i := 0; i < n; i++ {
 			p := profs[r.intn(len(profs))]
-			op := Op{P: p, D: smallData(c, r, p, lim), T: pickInstant(r), RC: r.intn(3), H: -1}
+			op := Op{P: p, D: smallData(c, r, p, lim), T: pickInstant(r), RC: r.intn(5), H: -1}
 			switch k := r.intn(10); {
 			case k < 3:
 				op.Kind = "validate"
@@ -349,7 +353,7 @@ func genC09(c *Corpus, pl pools, seed uint64, tier string, failSites []string) *
 		}
 		op := Op{P: hp[h], H: h, T: pickInstant(r), RC: 0}
 		if r.chance(40) {
-			op.RC = r.intn(3)
+			op.RC = r.intn(5)
 		}
 		op.D = smallData(c, r, op.P, lim)
 		switch k := r.intn(10); {
@@ -463,14 +467,14 @@ func genC06(c *Corpus, pl pools, seed uint64, tier string) *RunSpec {
 	}
 	d := smallData(c, r, p, lim)
 	t := pickInstant(r)
-	rc := r.intn(3)
+	rc := r.intn(5)
 	// "across repeated calls": other work happens between two calls with the same inputs
 	other := func() Op {
 		q := pl.small[r.intn(len(pl.small))]
 		if len(pl.spec) > 0 && r.chance(50) {
 			q = pl.spec[r.intn(len(pl.spec))]
 		}
-		return Op{Kind: "validate_cfg", P: q, D: smallData(c, r, q, lim), T: pickInstant(r), RC: r.intn(3), H: -1}
+		return Op{Kind: "validate_cfg", P: q, D: smallData(c, r, q, lim), T: pickInstant(r), RC: r.intn(5), H: -1}
 	}
 	nTasks := 1
 	if r.chance(40) {
